@@ -172,10 +172,14 @@ func (t *Transaction) With(name string, readOnly bool, createFn func() (Cachable
 			verifYield("With.rTxLock")
 			t.mu.Lock()
 			verifYield("With.rCheckWritten")
-			_, ok := t.writtenCaches[name]
+			ownCache, ok := t.writtenCaches[name]
 			verifYield("With.rTxUnlock")
 			t.mu.Unlock()
-			if !ok {
+			if ok {
+				// The manager may have dropped or replaced the entry since we wrote
+				// to it, the cache we hold the write lock of is the one to use.
+				cacheToUse = ownCache
+			} else {
 				/* We are using TryRLock here because we can survive if we don't get
 				* the lock with a fresh cold cache. The idea is, if there is an
 				* available cache then use it, otherwise use a cold cache to keep
@@ -217,7 +221,11 @@ func (t *Transaction) With(name string, readOnly bool, createFn func() (Cachable
 			 * Within a transaction a writer can write to multiple caches, e.g.
 			 * multiple indices. */
 			verifYield("With.xCheckWritten")
-			if _, ok := t.writtenCaches[name]; !ok {
+			if ownCache, ok := t.writtenCaches[name]; ok {
+				// The manager may have dropped or replaced the entry since we wrote
+				// to it, the cache we hold the write lock of is the one to use.
+				cacheToUse = ownCache
+			} else {
 				/****************************
 				 * Please do not forget to unlock after the transaction is
 				 * complete.
